@@ -44,6 +44,8 @@ VecApi == {
   E("inner", "base", << {4}, {4} >>),        E("qvmul", "base", << {4}, {3} >>),
   E("vvmul", "base", << {3}, {3} >>),        E("qpow", "base", << {4} >>),
   E("q2r", "base", << {4} >>),               E("slerp", "base", << {4}, {4} >>),
+  E("slerp(shortest)", "base", << {4}, {4} >>), E("qpow(-3)", "base", << {4} >>),
+  E("trexp(theta=)", "base", << {6} >>),     E("trexp2(theta=)", "base", << {1, 3} >>),
   E("matrix", "base", << {4} >>),            E("dot", "base", << {4}, {3} >>),
   E("dotb", "base", << {4}, {3} >>),         E("angle", "base", << {4}, {4} >>),
   E("isequal", "base", << {4}, {4} >>),      E("q2v", "base", << {4} >>),
@@ -118,9 +120,14 @@ VecCall(e, k, form, len, et) ==
               deflen |-> [i \in DOMAIN e.dims |-> CHOOSE n \in e.dims[i] : \A m \in e.dims[i] : n >= m]]
   /\ expect' = IF len \in e.dims[k] THEN "same-as-canonical" ELSE "reject"
 
-UnitCall(n, dir) ==
+\* configurations of the rotation whose angles are returned: the extraction code has separate
+\* branches for the singular cases of each axis order
+UnitCfgs == {"generic", "singular+", "singular-", "zero", "half-turn"}
+UnitCall(n, dir, cfg, o) ==
   /\ call.op = "none"
-  /\ call' = [op |-> "unit", name |-> n, dir |-> dir]
+  /\ (dir = "in" => cfg = "generic" /\ o = "zyx")
+  /\ (n \notin OrderIn => o = "zyx")
+  /\ call' = [op |-> "unit", name |-> n, dir |-> dir, cfg |-> cfg, order |-> o]
   /\ expect' = "deg-equals-rad"
 
 BadUnitCall(n, u) ==
@@ -133,9 +140,12 @@ OrderCall(n, o) ==
   /\ call' = [op |-> "order", name |-> n, order |-> o]
   /\ expect' = IF o \in GoodOrders THEN "accept" ELSE "reject"
 
-MatCall(n) ==
+\* the matrices handed in are of several kinds: code paths for special values (identity, pure
+\* translation, quarter and half turns about coordinate and non-coordinate axes) differ from the generic one
+MatKinds == {"generic", "identity", "translation", "quarter-turn", "half-turn", "half-turn-diag", "tiny-angle"}
+MatCall(n, k) ==
   /\ call.op = "none"
-  /\ call' = [op |-> "mat", name |-> n]
+  /\ call' = [op |-> "mat", name |-> n, kind |-> k]
   /\ expect' = "arguments-unchanged"
 
 ScalarCall(n) ==
@@ -146,12 +156,12 @@ ScalarCall(n) ==
 Next ==
   \/ \E e \in VecApi : \E k \in 1..2 : \E f \in FormsOf("base") : \E len \in 0..8 : \E et \in ElemTypes :
         VecCall(e, k, f, len, et)
-  \/ \E n \in UnitIn : UnitCall(n, "in")
-  \/ \E n \in UnitOut : UnitCall(n, "out")
+  \/ \E n \in UnitIn : UnitCall(n, "in", "generic", "zyx")
+  \/ \E n \in UnitOut : \E cfg \in UnitCfgs : \E o \in {"zyx", "xyz", "yxz"} : UnitCall(n, "out", cfg, o)
   \/ \E n \in UnitIn : \E u \in BadUnits : BadUnitCall(n, u)
   \/ \E n \in OrderIn : \E o \in GoodOrders \cup BadOrders : OrderCall(n, o)
   \/ \E n \in ScalarForms : ScalarCall(n)
-  \/ \E n \in MatApi : MatCall(n)
+  \/ \E n \in MatApi : \E k \in MatKinds : MatCall(n, k)
 
 Spec == Init /\ [][Next]_vars
 
